@@ -37,6 +37,12 @@ pub struct GenCfg {
     pub targeted_holds: bool,
     /// weight of the adaptive stale-validation tail among schedule tails (others sum to 22)
     pub w_stale_tail: u32,
+    /// per-mille of transactions that call an EOA (interesting when it carries a delegation)
+    pub w_call_eoa: u32,
+    /// weight of the custom precompile among address references / transaction targets (0 = never)
+    pub w_custom: u32,
+    /// per-mille of scenarios with one persistent database fault on a key the facade may read
+    pub facade_fault_pm: u32,
 }
 
 impl Default for GenCfg {
@@ -65,6 +71,9 @@ impl Default for GenCfg {
             chain_pm: 350,
             targeted_holds: true,
             w_stale_tail: 6,
+            w_call_eoa: 30,
+            w_custom: 0,
+            facade_fault_pm: 0,
         }
     }
 }
@@ -73,6 +82,9 @@ impl Default for GenCfg {
 pub struct Dim {
     pub n_eoa: u8,
     pub n_con: u8,
+    /// weight of the beneficiary among address references (others sum to ~84)
+    pub w_benef: u32,
+    pub w_custom: u32,
 }
 
 pub fn addr_ref(d: Dim) -> BoxedStrategy<AddrRef> {
@@ -85,8 +97,9 @@ pub fn addr_ref(d: Dim) -> BoxedStrategy<AddrRef> {
         8 => ((0..nc), (1u8..3)).prop_map(|(creator, nonce)| AddrRef::Created { creator, nonce }),
         8 => ((0..nc), (0u8..2), (0u8..INIT_KINDS)).prop_map(|(creator, salt, init)| AddrRef::Created2 { creator, salt, init }),
         5 => ((0..ne), (0u8..2)).prop_map(|(sender, k)| AddrRef::TxCreated { sender, k }),
-        8 => Just(AddrRef::Benef),
+        d.w_benef.max(1) => Just(AddrRef::Benef),
         3 => (1u8..=9).prop_map(AddrRef::Precompile),
+        d.w_custom => Just(AddrRef::Custom(0)),
     ]
     .boxed()
 }
@@ -131,7 +144,7 @@ pub fn stmt(d: Dim, g: &GenCfg, depth: u32) -> BoxedStrategy<Stmt> {
     let g2 = g.clone();
     let base = prop_oneof![
         40 => ((0u8..6), expr(d, 1)).prop_map(|(s, e)| Stmt::SStore(s, e)),
-        14 => (call_kind(), addr_ref(d), prop_oneof![4 => Just(0u64), 1 => 1u64..5], 0u8..4, proptest::option::weighted(0.3, 0u64..9), proptest::bool::weighted(0.1), proptest::option::weighted(0.6, 0u8..6))
+        14 => (call_kind(), addr_ref(d), prop_oneof![4 => Just(0u64), 1 => 1u64..5], prop_oneof![3 => 0u8..4, 1 => 0u8..40], proptest::option::weighted(0.3, 0u64..9), proptest::bool::weighted(0.1), proptest::option::weighted(0.6, 0u8..6))
             .prop_map(|(kind, target, value, sel, arg, small_gas, store)| Stmt::Call { kind, target, value, sel, arg, small_gas, store }),
         (g.w_create_stmt / 10).max(1) => (any::<bool>(), 0u8..2, 0u8..INIT_KINDS, prop_oneof![4 => Just(0u64), 1 => 1u64..3], proptest::option::weighted(0.5, 0u8..6))
             .prop_map(|(create2, salt, init, value, store)| Stmt::Create { create2, salt, init, value, store }),
@@ -209,6 +222,8 @@ pub fn tx(d: Dim, g: &GenCfg, spec: u8) -> BoxedStrategy<TxDef> {
     let to = prop_oneof![
         60 => (0..d.n_con.max(1)).prop_map(|i| TxTo::Call(AddrRef::Con(i))),
         15 => addr_ref(d).prop_map(TxTo::Call),
+        (g.w_call_eoa / 10).max(1) => (0..d.n_eoa.max(1)).prop_map(|i| TxTo::Call(AddrRef::Eoa(i))),
+        g.w_custom => Just(TxTo::Call(AddrRef::Custom(0))),
         (g.w_create_tx / 10).max(1) => (0u8..INIT_KINDS).prop_map(TxTo::Create),
     ];
     let nonce = prop_oneof![
@@ -255,7 +270,7 @@ pub fn tx(d: Dim, g: &GenCfg, spec: u8) -> BoxedStrategy<TxDef> {
     let auths = proptest::collection::vec(auth, 0..3);
     let access = proptest::collection::vec((addr_ref(d), proptest::collection::vec(0u8..6, 0..3)), 0..2);
     (
-        (0..ne, nonce, to, 0u8..4, proptest::option::weighted(0.3, 0u64..9), value),
+        (0..ne, nonce, to, prop_oneof![3 => 0u8..4, 1 => 0u8..40], proptest::option::weighted(0.3, 0u64..9), value),
         (gas, price, proptest::option::weighted(0.5, prop_oneof![(1000 - inv / 4) => prop_oneof![Just(0u64), Just(1), Just(2), Just(100)], inv / 4 + 1 => Just(PRIO_OVER)]), tx_type, chain, access, auths),
     )
         .prop_map(move |((sender, nonce, to, sel, arg, value), (gas, price_delta, prio, tx_type, chain, access_list, auths))| {
@@ -403,7 +418,7 @@ pub fn scenario(g: &GenCfg) -> BoxedStrategy<Scenario> {
     let g_outer = g.clone();
     (3u8..=6, 1u8..=4, weighted_u8(&g.specs), weighted_u8(&g.benef_roles))
         .prop_flat_map(move |(n_eoa, n_con, spec, benef_role)| {
-            let d = Dim { n_eoa, n_con };
+            let d = Dim { n_eoa, n_con, w_benef: (g.w_benef_touch / 8).max(1), w_custom: g.w_custom };
             let g = g.clone();
             let benef = match benef_role {
                 0 => Just(AddrRef::Absent(0xBE)).boxed(),
@@ -424,8 +439,15 @@ pub fn scenario(g: &GenCfg) -> BoxedStrategy<Scenario> {
                 proptest::bool::weighted(0.7),
                 proptest::bool::weighted(if g.allow_free_running { 0.15 } else { 0.0 }),
                 (proptest::bool::weighted(g.chain_pm as f64 / 1000.0), chain_contract(), proptest::collection::vec((0u8..5, 0u8..8), 12)),
+                proptest::option::weighted(
+                    g.facade_fault_pm as f64 / 1000.0,
+                    prop_oneof![
+                        prop_oneof![Just(AddrRef::Eoa(0)), Just(AddrRef::Con(0)), Just(AddrRef::Absent(1))].prop_map(DbKey::Basic),
+                        (0u8..3).prop_map(|s| DbKey::Storage(AddrRef::Con(0), s)),
+                    ],
+                ),
             )
-                .prop_map(move |(mut eoas, mut contracts, beneficiary, mut txs, (concurrency, dnc, basefee), sched, db_yields, free, (chain, chain_con, chain_sel))| {
+                .prop_map(move |(mut eoas, mut contracts, beneficiary, mut txs, (concurrency, dnc, basefee), sched, db_yields, free, (chain, chain_con, chain_sel), facade_fault)| {
                     if chain {
                         // one hot contract; transactions from (mostly) distinct senders call its routines
                         contracts[0] = chain_con;
@@ -456,7 +478,7 @@ pub fn scenario(g: &GenCfg) -> BoxedStrategy<Scenario> {
                         world: World { eoas, contracts, beneficiary },
                         txs,
                         grevm: GrevmCfg { concurrency, ..Default::default() },
-                        faults: vec![],
+                        faults: facade_fault.map(|key| vec![Fault { key, mode: FaultMode::Persistent }]).unwrap_or_default(),
                         raw_faults: vec![],
                         schedule: if free { None } else { Some(sched) },
                         db_yields: db_yields && !free,
